@@ -32,6 +32,7 @@ inductive Out (K V : Type) where
   | vals (l : List V)
   | pair (k : K) (v : V)
   | err (e : Err)
+  | abort          -- the caller's argument iterable raised; that exception propagates
 deriving DecidableEq, Repr
 
 /-! ### the dict (association list in dict order) -/
@@ -157,6 +158,12 @@ def getlist (s : OMD K V) (k : K) : List V := (dget k s.vals).getD []
 
 def contains (s : OMD K V) (k : K) : Bool := dhas k s.vals
 def len (s : OMD K V) : Nat := s.vals.length
+
+/-- `bool(omd)` (inherited from dict): the dict is not empty -/
+def bool (s : OMD K V) : Bool := !s.vals.isEmpty
+
+/-- `__iter__`: `return self.iterkeys()` -/
+def iter (s : OMD K V) : List K := s.keys
 
 /-- `items()`: `for key in self.iterkeys(): yield key, self[key]` -/
 def items (s : OMD K V) : Except Err (List (K × V)) :=
@@ -340,6 +347,14 @@ def eqMapLoop [DecidableEq V] (s : OMD K V) (m : List (K × V)) : List K → Exc
 def eqMapping [DecidableEq V] (s : OMD K V) (m : List (K × V)) : Except Err Bool :=
   if m.length ≠ s.len then .ok false else eqMapLoop s m s.keys
 
+/-- `__ne__`: `not (self == other)` -/
+def neOMD [DecidableEq V] (s t : OMD K V) : Bool := !s.eqOMD t
+
+def neMapping [DecidableEq V] (s : OMD K V) (m : List (K × V)) : Except Err Bool :=
+  match s.eqMapping m with
+  | .ok b => .ok (!b)
+  | .error e => .error e
+
 end OMD
 
 /-! ### histories: two registers, `s` (the dictionary under test) and `t` (a second OMD used as
@@ -366,6 +381,10 @@ inductive HOp (K V : Type) where
   | poplast (k : Option K) (hasD : Bool)
   | popitem
   | clear
+  -- the argument is an iterable that yields the listed items and then raises:
+  | addlistAbort (k : K) (vs : List V)            -- `v = list(v)` raises before anything is touched
+  | updateAbort (l : List (K × V))                -- the `seen` loop of `update` has taken over `l`
+  | updateExtendAbort (l : List (K × V))          -- the `add` loop of `update_extend` has taken over `l`
   | copyToT      -- t = s.copy() / copy.copy(s) / copy.deepcopy(s) / pickle round trip
   | copyToS      -- s = the same
   | swap
@@ -405,6 +424,9 @@ def hstep (st : HState K V) : HOp K V → HState K V × Out K V
   | .poplast k d => st.withS (st.s.poplast k d)
   | .popitem => st.withS st.s.popitem
   | .clear => (⟨OMD.empty, st.t⟩, .unit)
+  | .addlistAbort _ _ => (st, .abort)
+  | .updateAbort l => (⟨st.s.updPairs [] l, st.t⟩, .abort)
+  | .updateExtendAbort l => (⟨st.s.addAll l, st.t⟩, .abort)
   | .copyToT => (⟨st.s, st.s.copy⟩, .unit)
   | .copyToS => (⟨st.s.copy, st.t⟩, .unit)
   | .swap => (⟨st.t, st.s⟩, .unit)
